@@ -43,23 +43,23 @@ func (s *elemSite) key() string {
 // established elsewhere. key = function:expression
 var elemTable = map[string]string{
 	// accessor primitives: the obligation is carried by every call site of FirstByte/LastByte (they are sites themselves)
-	"(bytes.Bytes).FirstByte:b.data[0]":                                 "primitive accessor; every FirstByte() call site is its own obligation",
-	"(bytes.Bytes).LastByte:b.data[b.Len() - 1]":                        "primitive accessor; every LastByte() call site is its own obligation",
-	"(bytes.Bytes).ParseInt:b.data[0]":                                  "only caller json.(*scanner).setExp passes value.SubLow(expBegin) with expBegin != 0 set at an exponent byte that exists, so the receiver is non-empty (caller-side check: rule C02.elem.callers)",
-	"(bytes.Bytes).ParseInt:b.data[1:]":                                 "dominated by b.data[0] == '-' which already requires len >= 1",
-	"(bytes.Bytes).TrimSquareBrackets:b.data[1:lastCharIndex]":          "dominated by lastCharIndex > 0 with lastCharIndex = len-1 (alias with offset inside a slice bound)",
+	"(bytes.Bytes).FirstByte:b.data[0]":                                            "primitive accessor; every FirstByte() call site is its own obligation",
+	"(bytes.Bytes).LastByte:b.data[b.Len() - 1]":                                   "primitive accessor; every LastByte() call site is its own obligation",
+	"(bytes.Bytes).ParseInt:b.data[0]":                                             "only caller json.(*scanner).setExp passes value.SubLow(expBegin) with expBegin != 0 set at an exponent byte that exists, so the receiver is non-empty (caller-side check: rule C02.elem.callers)",
+	"(bytes.Bytes).ParseInt:b.data[1:]":                                            "dominated by b.data[0] == '-' which already requires len >= 1",
+	"(bytes.Bytes).TrimSquareBrackets:b.data[1:lastCharIndex]":                     "dominated by lastCharIndex > 0 with lastCharIndex = len-1 (alias with offset inside a slice bound)",
 	"(*notations/jschema.exampleBuilder).buildObjectKey:quoted[1:len(quoted) - 1]": "quoted is the result of encoding/json.Marshal of a Go string, which always yields a quoted JSON string (len >= 2); the error result is checked just above",
-	"bytes.QuoteChar:s[1:len(s) - 1]":                                   "s is the result of strconv.Quote, which always starts and ends with a quote (len >= 2)",
-	"(*json.Number).trimLeadingZerosInTheIntegerPart:n.nat.FirstByte()": "loop runs intLen = len(nat)-exp times with 0 <= exp <= len(nat) checked just above, and removes one byte per iteration, so nat is non-empty whenever intLen != 0",
-	"(*rules/enum.Enum).handleEndOfComment:e.values[len(e.values) - 1]": "collectLiteral is set only right after handleLiteralEnd appended a value (doCompile), and values never shrink",
-	"notations/jschema/ischema/constraint.parseBytes:b[8]":              "copied from google/uuid: every non-returning case of the preceding `switch len(b)` leaves len(b) == 36",
-	"notations/jschema/ischema/constraint.parseBytes:b[13]":             "see b[8]",
-	"notations/jschema/ischema/constraint.parseBytes:b[18]":             "see b[8]",
-	"notations/jschema/ischema/constraint.parseBytes:b[23]":             "see b[8]",
-	"notations/jschema/loader.checkBranchNodeWithOrConstraint:n[0]":     "names of a TypesList on a branch node come from the `or` loaders, which add a name only if IsUserTypeName() (len >= 2) or a generated `#%p` name",
-	"openapi/internal.TokenType:s[0]":                                   "argument is the `type` value of an accepted schema's rule; the compiler rejects empty type names with ErrUnknownValueOfTheTypeRule (102) before any OpenAPI conversion",
-	"openapi/internal/jsoac.newStringAdditionalProperties:r.Value[0]":   "additionalProperties value of an accepted schema: the loader rejects the empty name with ErrUnknownJSchemaType (103)",
-	"openapi/internal/jsoac.makeAdditionalAnyJSONObjects:r.Value[0]":    "same as newStringAdditionalProperties",
+	"bytes.QuoteChar:s[1:len(s) - 1]":                                              "s is the result of strconv.Quote, which always starts and ends with a quote (len >= 2)",
+	"(*json.Number).trimLeadingZerosInTheIntegerPart:n.nat.FirstByte()":            "loop runs intLen = len(nat)-exp times with 0 <= exp <= len(nat) checked just above, and removes one byte per iteration, so nat is non-empty whenever intLen != 0",
+	"(*rules/enum.Enum).handleEndOfComment:e.values[len(e.values) - 1]":            "collectLiteral is set only right after handleLiteralEnd appended a value (doCompile), and values never shrink",
+	"notations/jschema/ischema/constraint.parseBytes:b[8]":                         "copied from google/uuid: every non-returning case of the preceding `switch len(b)` leaves len(b) == 36",
+	"notations/jschema/ischema/constraint.parseBytes:b[13]":                        "see b[8]",
+	"notations/jschema/ischema/constraint.parseBytes:b[18]":                        "see b[8]",
+	"notations/jschema/ischema/constraint.parseBytes:b[23]":                        "see b[8]",
+	"notations/jschema/loader.checkBranchNodeWithOrConstraint:n[0]":                "names of a TypesList on a branch node come from the `or` loaders, which add a name only if IsUserTypeName() (len >= 2) or a generated `#%p` name",
+	"openapi/internal.TokenType:s[0]":                                              "argument is the `type` value of an accepted schema's rule; the compiler rejects empty type names with ErrUnknownValueOfTheTypeRule (102) before any OpenAPI conversion",
+	"openapi/internal/jsoac.newStringAdditionalProperties:r.Value[0]":              "additionalProperties value of an accepted schema: the loader rejects the empty name with ErrUnknownJSchemaType (103)",
+	"openapi/internal/jsoac.makeAdditionalAnyJSONObjects:r.Value[0]":               "same as newStringAdditionalProperties",
 }
 
 func deref(t types.Type) types.Type {
@@ -355,7 +355,7 @@ func elemSites(c *core.Ctx) []*elemSite {
 			}
 		}
 		if st.status == "" {
-			if r, ok := elemTable[st.key()]; ok {
+			if r, ok := tableGet(elemTable, st.key()); ok {
 				st.status, st.why = "table", r
 			} else {
 				st.status = "open"
